@@ -1,5 +1,5 @@
 (** C09 — correspondence ([agree]) and the spec-side predicates on the implementation's output ([holds]). *)
-From V Require Import Base.Util Gql.Ast Writer.Wop Ts.TsType Ts.TsDen C10.Model C10.Spec C10.Domain C09.Model C09.Spec.
+From V Require Import Base.Util Gql.Ast Writer.Wop Ts.TsType Ts.TsDen C10.Model C10.Spec C10.Domain C10.Parse C09.Model C09.Spec.
 
 Definition P (l c : N) : pos := mkPos l c 0 false.
 Definition P0 : pos := pos0.
@@ -17,13 +17,15 @@ Record oprun := mkOpRun {
 
 Inductive case :=
 | CVars (config_path : bool)   (* which of the two results [holds] judges: options set directly / through from_config *)
-        (doc : tsdoc) (o : sopts) (ns : str) (runs : list oprun).
+        (doc : tsdoc) (o : sopts) (ns : str)
+        (decl_on decl_off : option str)   (* the schema declaration text the implementation printed with the option on / off *)
+        (runs : list oprun).
 
 Definition vars_of (r : oprun) : list vardef := vds_list (r_vars r).
 
 Definition agree (c : case) : bool :=
   match c with
-  | CVars _ doc o ns runs =>
+  | CVars _ doc o ns _ _ runs =>
       forallb (fun r =>
         let direct := variables_type (mkOOpts ns (r_allow r)) (vars_of r) in
         tstype_eqb direct (r_direct r)
@@ -68,19 +70,45 @@ Definition vars_ok (o : sopts) (doc : tsdoc) (ms : list (option member)) (allow 
 
 Definition with_optional (o : sopts) (b : bool) : sopts := mkSOpts (so_scalars o) (so_meta o) b (so_runtime o).
 
+(** ** the `__OperationInput` namespace, read from the implementation's schema declaration text *)
+Definition input_decls (doc : tsdoc) (text : str) : option (list (str * str * tstype)) :=
+  match parse_schema_text (raw_local doc) text with
+  | Some nss => option_map snd (find (fun nm => str_eqb (fst nm) (target_str OpIn)) nss)
+  | None => None
+  end.
+Definition decl_local (d : str * str * tstype) : str := snd (fst d).
+(** a scalar's verbatim TypeScript text mentions an identifier that the namespace itself declares:
+    the declaration captures it and the scalar no longer means the configured type *)
+Definition captured (decls : list (str * str * tstype)) : bool :=
+  existsb (fun d => match snd d with
+                    | TRaw r => existsb (fun i => existsb (fun d' => str_eqb (decl_local d') i) decls) (idents_of r)
+                    | _ => false
+                    end) decls.
+(** … and when the whole text IS such an identifier it denotes that declaration *)
+Definition resolve_captured (decls : list (str * str * tstype)) : list (str * str * tstype) :=
+  map (fun d => match snd d with
+                | TRaw r => if existsb (fun d' => str_eqb (decl_local d') r) decls then (fst d, TVar r pos0) else d
+                | _ => d
+                end) decls.
+
 Definition holds (c : case) : bool :=
   match c with
-  | CVars config_path doc o ns runs =>
+  | CVars config_path doc o ns decl_on decl_off runs =>
       forallb (fun r =>
         (* the schema declaration is generated under the same option value *)
         let o' := with_optional o (r_allow r) in
         if wf_schema o' doc then
-          match namespace_members o' doc OpIn with
-          | Ok ms =>
-              (* through the configuration the option value is the configured one (default: on) *)
-              Bool.eqb (config_allow_undefined (r_cfg r)) (r_allow r)
-              && vars_ok o' doc ms (r_allow r) (vars_of r) (if config_path then r_config r else r_direct r)
-          | _ => true
+          match (if r_allow r then decl_on else decl_off) with
+          | Some text =>
+              match input_decls doc text with
+              | Some decls =>
+                  negb (captured decls)
+                  && (if config_path then Bool.eqb (config_allow_undefined (r_cfg r)) (r_allow r) else true)
+                  && vars_ok o' doc (map as_member (resolve_captured decls)) (r_allow r) (vars_of r)
+                             (if config_path then r_config r else r_direct r)
+              | None => false                  (* the emitted declaration is not readable *)
+              end
+          | None => false                      (* no declaration on a well-formed schema *)
           end
         else true) runs
   end.
